@@ -190,11 +190,15 @@ func (c *Conc) do(op COp) string {
 				sr = sr.And(cj.C.Path, cj.C.Op, cj.C.V.Go())
 			}
 		}
-		if sr.Err() != nil {
-			return "err:" + ErrClass(sr.Err())
-		}
 		if op.Mode == "len" && len(op.Q.Rest) == 0 {
+			if sr.Err() != nil {
+				return "err:" + ErrClass(sr.Err())
+			}
 			return fmt.Sprint(sr.Len())
+		}
+		if sr.Err() != nil {
+			// a refinement evaluated after a concurrent delete may legitimately fail
+			return "collected"
 		}
 		// a search is evaluated at Search/And/Or time and collected later: several
 		// calls, not one atomic operation. Only the single-call form (Search+Len)
@@ -344,14 +348,15 @@ func cstep(cons map[string]model.Cons, asyncMode bool, m *model.Model, op COp, o
 	case "all", "assignall":
 		return out == modelAll(m, m.Lids()), m
 	case "search":
+		if !(op.Mode == "len" && len(op.Q.Rest) == 0) {
+			// several API calls: not part of the linearizability judgement
+			return out == "collected", m
+		}
 		set, e := evalQuery(m, op.Q)
 		if e != "" {
 			return strings.HasPrefix(out, "err:"), m
 		}
-		if op.Mode == "len" && len(op.Q.Rest) == 0 {
-			return out == fmt.Sprint(len(set)), m
-		}
-		return out == "collected", m
+		return out == fmt.Sprint(len(set)), m
 	case "sdel":
 		set, e := evalQuery(m, op.Q)
 		if e != "" {
